@@ -162,17 +162,21 @@ theorem Res.runSeq_tryCatch (r : Res α) (h : Exc → Conn → Res α) :
 @[simp] theorem processLogoutR_seq (env : Env) (m : Msg) : (processLogoutR env m).runSeq = processLogout env m := by
   simp [processLogoutR, processLogout]
 
-@[simp] theorem resendLoopR_seq (env : Env) (sr : Msg → Bool) (rows : List Msg) (a b : Int) :
-    (resendLoopR env sr rows a b).runSeq = resendLoop env sr rows a b := by
+@[simp] theorem resendLoopR_seq (env : Env) (sr : Msg → Bool) (endNo : Int) (rows : List Msg) (a b : Int) :
+    (resendLoopR env sr endNo rows a b).runSeq = resendLoop env sr endNo rows a b := by
   induction rows generalizing a b with
   | nil => simp [resendLoopR, resendLoop]
   | cons row rest ih =>
     unfold resendLoopR resendLoop
     simp only [R.runSeq_bind, R.runSeq_liftE, R.runSeq_int]
-    congr 1; funext v; congr 1; funext n; congr 1; funext ty
-    by_cases h : ty ∈ ConnEnum.noReplay
-    · simp [h, ih, M.pure_bind]
-    · cases sr row <;> simp [h, ih, M.pure_bind]
+    congr 1; funext v; congr 1; funext n
+    by_cases hn : n > endNo
+    · simp [hn, ih]
+    · simp only [hn, if_false, R.runSeq_bind, R.runSeq_liftE]
+      congr 1; funext ty
+      by_cases h : ty ∈ ConnEnum.noReplay
+      · simp [h, ih, M.pure_bind]
+      · cases sr row <;> simp [h, ih, M.pure_bind]
 
 @[simp] theorem processResendR_seq (env : Env) (sr : Msg → Bool) (m : Msg) :
     (processResendR env sr m).runSeq = processResend env sr m := by
